@@ -394,6 +394,218 @@ def translate_xrule(r):
     return insts
 
 
+# ----- plan rules -> statements over the shallow relational semantics (Model/PlanSem.lean) ---
+#
+# Sorts: P plan, B predicate, E value expression, EL expression list, KL order-key list,
+# AL aggregate list, JT join type, LIM limit, OFF offset.  Every pattern variable gets the sort
+# of the position(s) it occurs in (conflict = translator error => the rule is untranslatable
+# and listed as an unproved obligation).
+
+PLAN_SIG = {
+    "filter": (["B", "P"], "P"), "proj": (["EL", "P"], "P"), "order": (["KL", "P"], "P"),
+    "limit": (["LIM", "OFF", "P"], "P"), "topn": (["LIM", "OFF", "KL", "P"], "P"),
+    "join": (["JT", "B", "P", "P"], "P"), "hashjoin": (["JT", "B", "EL", "EL", "P", "P"], "P"),
+    "mergejoin": (["JT", "B", "EL", "EL", "P", "P"], "P"),
+    "hashagg": (["EL", "AL", "P"], "P"), "sortagg": (["EL", "AL", "P"], "P"), "agg": (["AL", "P"], "P"),
+    "empty": (["P"], "P"), "window": (["WL", "P"], "P"), "scan": (["TBL", "CL", "B"], "P"),
+    "and": (["B", "B"], "B"), "or": (["B", "B"], "B"), "not": (["B"], "B"), "=": (["E", "E"], "B"),
+}
+PLAN_TY = {"P": "Rel", "B": "BExpr", "E": "VExpr", "EL": "List VExpr", "KL": "List Key", "AL": "List Agg",
+           "JT": "JoinType", "LIM": "Option Nat", "OFF": "Nat", "TBL": "Rel", "CL": "List VExpr"}
+JT_ATOMS = {"inner": ".inner", "left_outer": ".leftOuter", "right_outer": ".rightOuter", "full_outer": ".fullOuter",
+            "semi": ".semi", "anti": ".anti"}
+# rules whose two sides enumerate the same rows in a different order (bag equality is claimed)
+PERM_RULES = {"inner-join-swap", "inner-hash-join-swap", "inner-join-right-rotate", "inner-join-right-rotate-1",
+              "pushdown-filter-hashagg"}
+
+
+def pvar(v):
+    return "p_" + re.sub(r"[^A-Za-z0-9]", "_", v[1:])
+
+
+def plan_infer(ast, want, sorts):
+    """checks `ast` against sort `want`, recording variable sorts"""
+    if isinstance(ast, str):
+        if ast.startswith("?"):
+            if sorts.setdefault(ast, want) != want:
+                # TBL/CL/P etc must agree
+                raise NotX("variable %s used at sorts %s and %s" % (ast, sorts[ast], want))
+            return
+        if want == "B" and ast in ("true", "false"):
+            return
+        if want == "JT" and ast in JT_ATOMS:
+            return
+        if want == "LIM" and (ast == "null" or re.fullmatch(r"\d+", ast)):
+            return
+        if want == "OFF" and re.fullmatch(r"\d+", ast):
+            return
+        raise NotX("atom %s at sort %s" % (ast, want))
+    h, args = ast[0], ast[1:]
+    if h == "list":
+        if want in ("EL", "CL"):
+            for a in args:
+                plan_infer(a, "E", sorts)
+            return
+        if want in ("KL", "AL", "WL") and not args:
+            return
+        raise NotX("list literal at sort %s" % want)
+    if h not in PLAN_SIG:
+        raise NotX("operator %s" % h)
+    argsorts, res = PLAN_SIG[h]
+    if res != want or len(argsorts) != len(args):
+        raise NotX("operator %s/%d at sort %s" % (h, len(args), want))
+    for a, so in zip(args, argsorts):
+        plan_infer(a, so, sorts)
+
+
+def plan_emit(ast, want):
+    if isinstance(ast, str):
+        if ast.startswith("?"):
+            return pvar(ast)
+        if want == "B":
+            return "bTrue" if ast == "true" else "bFalse"
+        if want == "JT":
+            return "JoinType" + JT_ATOMS[ast]
+        if want == "LIM":
+            return "(none : Option Nat)" if ast == "null" else "(some %s : Option Nat)" % ast
+        if want == "OFF":
+            return "(%s : Nat)" % ast
+    h, args = ast[0], ast[1:]
+    if h == "list":
+        if want in ("EL", "CL"):
+            return "[%s]" % ", ".join(plan_emit(a, "E") for a in args)
+        return "[]"
+    argsorts, _ = PLAN_SIG[h]
+    xs = [plan_emit(a, so) for a, so in zip(args, argsorts)]
+    if h == "window":
+        return "(window %s)" % xs[1]
+    if h == "scan":
+        return "(scan %s %s)" % (xs[0], xs[2])
+    name = {"and": "bAnd", "or": "bOr", "not": "bNot", "=": "bEq"}.get(h, h)
+    return "(%s %s)" % (name, " ".join(xs))
+
+
+def owned_of(ast):
+    """Lean term for the owned-column set of a plan-sorted pattern"""
+    return "(%s).owned" % plan_emit(ast, "P")
+
+
+def wf_hyps(ast, want, out):
+    """well-formedness of an instantiated pattern: every operator's expressions read only the
+    columns its inputs own; the two sides of a join own disjoint columns"""
+    if isinstance(ast, str):
+        return
+    h, args = ast[0], ast[1:]
+    if h == "list" or h not in PLAN_SIG:
+        return
+    argsorts, _ = PLAN_SIG[h]
+    plans = [a for a, so in zip(args, argsorts) if so == "P"]
+    if h in ("join", "hashjoin", "mergejoin"):
+        l, r = plans
+        out.append("(∀ x, %s x = true → %s x = false)" % (owned_of(l), owned_of(r)))
+        scope = "(fun x => %s x || %s x)" % (owned_of(l), owned_of(r))
+    elif plans:
+        scope = owned_of(plans[0])
+    else:
+        scope = None
+    for a, so in zip(args, argsorts):
+        if so == "B" and scope and not (isinstance(a, str) and a in ("true", "false")):
+            out.append("ReadsWithin %s %s" % (plan_emit(a, "B"), scope))
+        if so == "EL" and scope:
+            out.append("(∀ e ∈ %s, ReadsWithin e %s)" % (plan_emit(a, "EL"), scope))
+        if so == "KL" and scope and not (isinstance(a, list) and a == ["list"]):
+            out.append("(∀ k ∈ %s, ReadsWithin k.e %s)" % (plan_emit(a, "KL"), scope))
+        wf_hyps(a, so, out)
+
+
+def find_hashagg_keys(ast, aggvar):
+    if isinstance(ast, str):
+        return None
+    if ast[0] in ("hashagg", "sortagg") and len(ast) == 4 and ast[2] == aggvar:
+        return ast[1]
+    for a in ast[1:]:
+        r = find_hashagg_keys(a, aggvar)
+        if r is not None:
+            return r
+    return None
+
+
+def translate_plan_rule(r):
+    lhs, rhs = r["lhs_ast"], r["rhs_ast"]
+    extra_vars = {}
+    if r["applier"] == "apply_proj":
+        # children are wrapped in a projection on an arbitrary column list
+        def wrap(a):
+            if isinstance(a, str):
+                if a in ("?child", "?left", "?right"):
+                    v = "?pl_" + a[1:]
+                    extra_vars[v] = "EL"
+                    return ["proj", v, a]
+                return a
+            return [a[0]] + [wrap(x) for x in a[1:]]
+        rhs = wrap(rhs)
+    elif r["applier"] == "column_prune":
+        def repl(a):
+            if isinstance(a, str):
+                if a == "?columns":
+                    extra_vars["?columns_pruned"] = "CL"
+                    return "?columns_pruned"
+                return a
+            return [a[0]] + [repl(x) for x in a[1:]]
+        rhs = repl(rhs)
+    elif r["applier"]:
+        raise NotX("applier %s" % r["applier"])
+    sorts = {}
+    plan_infer(lhs, "P", sorts)
+    lvars = list(sorts)
+    plan_infer(rhs, "P", sorts)
+    for v in sorts:
+        if v not in lvars and v not in extra_vars:
+            raise NotX("rhs introduces %s" % v)
+    hyps = []
+    wf_hyps(lhs, "P", hyps)
+    for c in r["conds"]:
+        fn, args = c["fn"], c["args"]
+        if fn == "not_depend_on":
+            e, pl = args
+            if sorts.get(pl) == "P" and sorts.get(e) in ("B", "E"):
+                hyps.append("Indep %s %s.owned" % (pvar(e), pvar(pl)))
+            elif sorts.get(pl) == "AL" and sorts.get(e) == "B":
+                keys = find_hashagg_keys(lhs, pl)
+                if keys is None:
+                    raise NotX("not_depend_on over an aggregate list outside hashagg")
+                hyps.append("Indep %s (fun x => %s.any fun a => a.col == x)" % (pvar(e), pvar(pl)))
+                hyps.append("(∀ ρ ρ' : Env, groupKey %s ρ = groupKey %s ρ' → %s ρ = %s ρ')" % (plan_emit(keys, "EL"), plan_emit(keys, "EL"), pvar(e), pvar(e)))
+            else:
+                raise NotX("not_depend_on(%s:%s, %s:%s)" % (e, sorts.get(e), pl, sorts.get(pl)))
+        elif fn == "all_depend_on":
+            e, pl = args
+            if sorts.get(e) == "B":
+                hyps.append("ReadsWithin %s %s.owned" % (pvar(e), pvar(pl)))
+            elif sorts.get(e) == "EL":
+                hyps.append("(∀ e ∈ %s, ReadsWithin e %s.owned)" % (pvar(e), pvar(pl)))
+            else:
+                raise NotX("all_depend_on at sort %s" % sorts.get(e))
+        elif fn == "schema_is_eq":
+            hyps.append("%s = %s.cols" % (pvar(args[0]), pvar(args[1])))
+        elif fn == "is_orderby":
+            # the order analysis claims the plan's rows are already sorted by these keys; its
+            # soundness for scans is C12's subject (ScanContract.sorted)
+            if sorts.get(args[0]) == "KL":
+                hyps.append("sortRows (keysLt %s) %s.rows = %s.rows" % (pvar(args[0]), pvar(args[1]), pvar(args[1])))
+            else:
+                hyps.append("True")
+        elif fn == "is_primary_key_range":
+            hyps.append("True")   # the scan contract (C13) is built into `scan`
+        else:
+            raise NotX("condition %s" % fn)
+    allvars = list(sorts.items())
+    binders = " ".join("(%s : %s)" % (pvar(v), PLAN_TY[so]) for v, so in allvars)
+    concl = "RelPerm" if r["name"] in PERM_RULES else "RelEq"
+    stmt = "∀ %s, %s%s %s %s" % (binders, "".join(h + " → " for h in hyps), concl, plan_emit(lhs, "P"), plan_emit(rhs, "P"))
+    return stmt, concl
+
+
 def ident(name):
     return re.sub(r"[^A-Za-z0-9]", "_", name)
 
@@ -438,6 +650,8 @@ def main():
     L.append("structure RuleMeta where\n  id : String\n  name : String\n  file : String\n  line : Nat\n  lists : List String\n  lhs : Sexp\n  rhs : Sexp\n  applier : Option String\n  conds : List (String × List String)\n  kind : String")
     L.append("")
     xinsts = []
+    PL = ["import RlModel.Model.PlanSem", "/-! GENERATED by translator/gen_rules.py from /repo/src/planner/rules/{plan,order,range}.rs on every run. Do not edit. -/",
+          "namespace RlModel.Gen", "open RlModel RlModel.P", ""]
     for r in uniq:
         kind = "plan"
         r["insts"] = []
@@ -472,6 +686,16 @@ def main():
             except NotX as e:
                 kind = "expr-other"
                 r["untranslatable"] = str(e)
+        if r["file"] != "expr":
+            try:
+                stmt, concl = translate_plan_rule(r)
+                PL.append("/-- %s -/\ndef pstmt_%s : Prop :=\n  %s\n" % (r["sig"].replace("-/", "- /"), r["id"], stmt))
+                kind = "plan"
+                r["pstmt"] = "pstmt_" + r["id"]
+                r["concl"] = concl
+            except NotX as e:
+                kind = "plan-other"
+                r["untranslatable"] = str(e)
         r["kind"] = kind
         L.append('def meta_%s : RuleMeta :=\n  { id := "%s", name := "%s", file := "%s", line := %d, lists := [%s],\n    lhs := %s,\n    rhs := %s,\n    applier := %s, conds := [%s], kind := "%s" }' % (
             r["id"], r["id"], r["name"], r["file"], r["line"], ", ".join('"%s"' % x for x in r["lists"]),
@@ -486,11 +710,16 @@ def main():
         '("%s", [%s])' % (k, ", ".join('"%s"' % x for x in v)) for k, v in sorted(stages.items())))
     L.append("end RlModel.Gen")
     os.makedirs(outdir, exist_ok=True)
+    PL.append("end RlModel.Gen")
+    ptext = "\n".join(PL) + "\n"
+    pp = os.path.join(outdir, "PlanRules.lean")
+    if not os.path.exists(pp) or open(pp).read() != ptext:
+        open(pp, "w").write(ptext)
     text = "\n".join(L) + "\n"
     p = os.path.join(outdir, "Rules.lean")
     if not os.path.exists(p) or open(p).read() != text:
         open(p, "w").write(text)
-    js = {"rules": [{k: r[k] for k in ("id", "name", "file", "line", "lists", "lhs", "rhs", "applier", "conds", "kind", "insts", "sig", "lhs_ast", "rhs_ast", "lhs_extra_parens", "rhs_extra_parens")} | ({"untranslatable": r["untranslatable"]} if "untranslatable" in r else {}) for r in uniq],
+    js = {"rules": [{k: r.get(k) for k in ("id", "name", "file", "line", "lists", "lhs", "rhs", "applier", "conds", "kind", "insts", "sig", "pstmt", "concl", "lhs_ast", "rhs_ast", "lhs_extra_parens", "rhs_extra_parens")} | ({"untranslatable": r["untranslatable"]} if "untranslatable" in r else {}) for r in uniq],
           "lists": lists, "stages": stages, "extra_rules": extra, "stage_calls": stage_calls}
     pj = os.path.join(outdir, "rules.json")
     tj = json.dumps(js, indent=1)
